@@ -438,6 +438,20 @@ def gen_use(rng: random.Random, mod: dict[str, Any]) -> dict[str, Any]:
     return u
 
 
+def _shift_imp_refs(obj: Any, by: int) -> None:
+    """Import indices inside a slot spec after an import was inserted at the front."""
+    if isinstance(obj, dict):
+        if "cls" in obj and isinstance(obj["cls"], list) and obj["cls"][0] >= 0:
+            obj["cls"][0] += by
+        if "reexport" in obj:
+            obj["reexport"] += by
+        for v in obj.values():
+            _shift_imp_refs(v, by)
+    elif isinstance(obj, list):
+        for v in obj:
+            _shift_imp_refs(v, by)
+
+
 def gen_deep_use(rng: random.Random, state: dict[str, Any], mid: str) -> dict[str, Any] | None:
     """A use like `p: m1.m2.C0` that is valid only while m1 keeps `import m2` (and so on)."""
     mod = state["mods"][mid]
@@ -515,8 +529,28 @@ def gen_project(rng: random.Random, acyclic: bool = False, max_mods: int = 8) ->
     state: dict[str, Any] = {"mods": {}, "roots": ["m0"], "argv_mode": "files"}
     for mid in mods:
         state["mods"][mid] = gen_module(rng, mid, mods, order if acyclic or rng.random() < 0.5 else None)
+    if rng.random() < 0.3:
+        # swarm shape "chains": a spine of plain `import` edges m_i -> m_{i+1}, deep attribute-chain
+        # uses along it, optional back edges (cycles) and a second entry point further down, so that
+        # edits of the import structure below unchanged modules are common
+        spine = [m for m in mods if "." not in m]
+        state["shape"] = "chains"
+        state["spine"] = spine
+        for a, b in zip(spine, spine[1:]):
+            imps = state["mods"][a]["imports"]
+            if not any(i["mod"] == b and i["style"] == "import" for i in imps):
+                imps.insert(0, {"mod": b, "style": "import", "ignore": False})
+                for u in state["mods"][a]["uses"]:
+                    u["imp"] += 1
+                for sl in state["mods"][a]["slots"].values():
+                    _shift_imp_refs(sl, 1)
+        if len(spine) >= 3 and not acyclic and rng.random() < 0.6:
+            back = rng.choice(spine[1:3])
+            state["mods"][back]["imports"].append({"mod": spine[0], "style": rng.choice(["import", "func"]), "ignore": False})
+        if len(spine) >= 4:
+            state["roots"] = sorted(set(state["roots"]) | {rng.choice(spine[2:])})
     for mid in mods:
-        if rng.random() < 0.5:
+        if rng.random() < (0.9 if state.get("shape") == "chains" else 0.5):
             du = gen_deep_use(rng, state, mid)
             if du is not None:
                 state["mods"][mid]["uses"].append(du)
@@ -582,6 +616,24 @@ def gen_edit(rng: random.Random, state: dict[str, Any], acyclic: bool = False) -
                 uses.append(du)
         return {"e": "uses", "mod": mid, "uses": uses}
     if r < 0.72:
+        if state.get("shape") == "chains" and rng.random() < 0.7:
+            # drop or restore one spine import, everything else in that module stays
+            spine = [m for m in state.get("spine", []) if m in state["mods"]]
+            if len(spine) >= 3:
+                j = rng.randrange(0, len(spine) - 1)
+                a, b = spine[j], spine[j + 1]
+                imps = copy.deepcopy(state["mods"][a]["imports"])
+                has = [i for i, im in enumerate(imps) if im["mod"] == b and im["style"] == "import"]
+                if has:
+                    # keep the indices of the other imports stable: the slot becomes an ignored import of nothing
+                    imps[has[0]] = {"mod": "spine_gap", "style": "import", "ignore": True, "spine_for": b}
+                else:
+                    cand = [i for i, im in enumerate(imps) if im.get("spine_for") == b]
+                    if cand:
+                        imps[cand[0]] = {"mod": b, "style": "import", "ignore": False}
+                    else:
+                        imps.append({"mod": b, "style": "import", "ignore": False})
+                return {"e": "imports", "mod": a, "imports": imps}
         if acyclic:
             return {"e": "touch", "mod": mid}
         n = rng.choice([0, 1, 2, 3])
